@@ -107,10 +107,16 @@ impl<F: Fn(pipe::SimplexDirection, usize) + Send + Sync> LeftPipe<F> {
             },
         );
 
-        self.shared
-            .forwarder_shared
-            .on_new_udp_connection(meta)
-            .await?;
+        if let Err(e) = self.shared.forwarder_shared.on_new_udp_connection(meta).await {
+            // no outbound socket: forget the flow, or the next datagram would be written to a
+            // sink that does not know it
+            self.shared
+                .udp_connections
+                .lock()
+                .unwrap()
+                .remove(&forwarder::UdpDatagramMeta::from(meta));
+            return Err(e);
+        }
 
         if let Some(c) = self
             .shared
